@@ -232,9 +232,13 @@ def gen_dest_value(rng: random.Random, doc: Doc, page_refs: List[Ref], uniq: int
     arr = gen_dest_array(rng, page_refs, uniq)
     v: Any = arr
     kind = "array"
-    if rng.random() < 0.35:
+    r = rng.random()
+    if r < 0.2:
         v = {"D": arr}
         kind = "dict"
+    elif r < 0.4:
+        v = {"D": doc.add(arr)}                    # the D entry is itself an indirect reference
+        kind = "dict_Dref"
     if rng.random() < 0.4:
         v = doc.add(v)
         kind += "_indirect"
@@ -725,6 +729,7 @@ def gen_doc(rng: random.Random, fam: str, opts: Optional[Dict[str, Any]] = None)
         assert [(lv, nd.ref) for lv, nd in order] == pre, "reference outline walk disagrees with construction"
         cat["Outlines"] = root_ref
         exp = []
+        pages_exp: List[List[Any]] = []
         maxlevel = 0
         for lv, nd in order:
             it = doc.objs[nd.ref.n]
@@ -733,9 +738,28 @@ def gen_doc(rng: random.Random, fam: str, opts: Optional[Dict[str, Any]] = None)
             act = R.norm_gen(doc, it["A"]) if "A" in it else None
             exp.append([lv, nd.title, dest, act, None])
             maxlevel = max(maxlevel, lv)
+            # the page the item leads to (what tools/dumppdf.py -T prints as <pageno>)
+            tgt = None
+            via = ""
+            if "Dest" in it:
+                tgt = it["Dest"]
+            elif "A" in it:
+                a = it["A"]
+                ad = R.deref(doc, a)
+                if R._get(ad, "S") == N("GoTo"):
+                    tgt = R._get(ad, "D")
+                    via = "action_indirect:" if isinstance(a, Ref) else "action:"
+            if tgt is None:
+                pages_exp.append([None, "none"])
+            else:
+                pg, how = R.destination_page(doc, page_refs, tree_vals, dict_vals, tgt)
+                if isinstance(tgt, (bytes, bytearray)) and len(tgt) == 0:
+                    how += ":empty_string"
+                pages_exp.append([pg, via + how])
             if nd.kind == "bare":
                 case["bare_items"] = case.get("bare_items", 0) + 1
         case["outlines"] = exp
+        case["outline_pages"] = pages_exp
         stats.update({"ol_items": len(exp), "ol_maxlevel": maxlevel,
                       "ol_max_siblings": max([len(top)] + [len(nd.children) for _, nd in order])})
 
